@@ -54,7 +54,7 @@ PROPS = {
     "C09": dict(sd=True, suites={"sysdata": dict(fields=["exec", "setup", "setupok", "driver-exception"], oracles=["exec_runs_setup", "exec_releases", "exec_panic_propagates", "setup_keeps_existing"]),
                         "world": dict(fields=["outcome", "probe", "ledger", "end", "driver-exception"],
                                       oracles=["mismatch_panics", "drop_once", "fail_preserves", "other_slots_untouched", "insert_replaces",
-                                               "remove_empties", "entry_never_overwrites", "entry_inserts", "presence_agrees"])}),
+                                               "remove_empties", "entry_never_overwrites", "entry_inserts", "presence_agrees", "get_mut_identity"])}),
     "C10": dict(suites={"plan": dict(fields=LAYOUT + ["maxthr"], oracles=["skip_justified", "max_threads"])}),
     "C11": dict(suites={"pool": dict(fields=["pool-model", "builderr", "driver-exception"], oracles=["stage_serialised"])}),
     "C12": dict(suites={"plan": dict(fields=["tl", "tlorder", "sendable", "driver-exception"], oracles=["tl_order", "sendable", "sendable_preserves_plan"]),
@@ -80,7 +80,7 @@ PROPS = {
                                                 "once", "seq_order", "run_counts"])}),
     "C17": dict(suites={"meta": dict(fields=["outcome", "driver-exception"],
                                      oracles=["get_iff_registered", "own_vtable", "same_address", "bad_cast_only", "iter_borrow_discipline",
-                                              "iter_registered_present_in_first_registration_order", "iter_own_vtable"])}),
+                                              "iter_registered_present_in_first_registration_order", "iter_own_vtable", "iter_protocol"])}),
     "C18": dict(suites={"plan": dict(fields=["calls", "err", "errs", "driver-exception"], oracles=["errors_exact", "status:setup-panic", "status:run-panic"],
                                      gens=["malformed"])}),
     "C19": dict(nopar=True, suites={"plan": dict(meta=True, fields=LAYOUT + ["tl", "tlorder", "maxthr"], oracles=["meta_same_plan"])}),
@@ -90,8 +90,15 @@ PROPS = {
 # returns) is a failing input of every property that suite serves
 for _p in PROPS.values():
     for _sn, _ss in _p["suites"].items():
-        if _sn in ("exec", "async", "parseq") and "hang" not in _ss["oracles"]:
+        if _sn in ("exec", "async", "parseq", "sysdata") and "hang" not in _ss["oracles"]:
             _ss["oracles"] = list(_ss["oracles"]) + ["hang"]
+
+# the crate is also built WITHOUT the `parallel` feature for every property served by the plan or exec suite
+for _p in PROPS.values():
+    for _sn, _ss in _p["suites"].items():
+        if _sn in ("plan", "exec") and not _ss.get("meta"):
+            _ss["nopar"] = True
+            _p["nopar"] = True
 
 TRUSTED_BASE = [
     "Coq 8.16.1 kernel (coqc; coqchk in the thorough tier); vm_compute in Examples and params_ok; no native_compute",
